@@ -706,6 +706,10 @@ func redactScalarValue(keyPath []string, v interface{}, isSearchStage bool, isSe
 				return redactString(s, RedactedUUID)
 			}
 		}
+	case "subType":
+		if grandParentKey == "$binary" {
+			return v
+		}
 	}
 	switch v.(type) {
 	case nil:
